@@ -140,6 +140,16 @@ def check_aware(ctx, us_since_min, off_s):
                 V(ctx, "to_datetime_utc-out-of-range-returned", f"{i!r}.to_datetime_utc() returned {back!r} although the instant is outside datetime's range", case, repr(back))
             except (RuntimeError, OverflowError, ValueError) as e:
                 ctx.exc(e); ctx.count("out_of_range")
+    # the same instant seen at another offset must convert to ITS wall-clock fields and offset (aware == compares instants only)
+    try:
+        off2 = 3600 if off_s != 3600 else -7200
+        a2 = a.astimezone(dt.timezone(dt.timedelta(seconds=off2)))
+        o1 = OffsetDateTime.from_aware_datetime(a); o2 = OffsetDateTime.from_aware_datetime(a2)
+        l2 = o2.local_date_time
+        if o2.offset.seconds != off2 or (l2.year, l2.month, l2.day, l2.hour, l2.minute, l2.second) != (a2.year, a2.month, a2.day, a2.hour, a2.minute, a2.second) or o1.offset.seconds != off_s:
+            V(ctx, "odt-from-aware-same-instant-other-offset", f"{a2!r} (same instant as {a!r}, converted just before) -> {o2!r}: wall-clock fields or offset are not those of the datetime given", case, repr(o2))
+    except (OverflowError, ValueError) as e:
+        ctx.exc(e)
     try:
         odt = OffsetDateTime.from_aware_datetime(a)
         if odt.offset.seconds != off_s:
@@ -153,6 +163,28 @@ def check_aware(ctx, us_since_min, off_s):
     except Exception as e:  # noqa: BLE001
         ctx.exc(e)
         V(ctx, f"odt-aware-raised:{type(e).__name__}", f"OffsetDateTime aware round trip of {a!r} raised {e!r}", case, repr(e))
+
+
+def check_aware_subsecond(ctx, us_since_min, off_us):
+    """Instant can represent any aware datetime exactly, also when the utc offset has a sub-second part."""
+    from pyoda_time import Instant
+    from vf import gen
+    d = dt.datetime.min + dt.timedelta(microseconds=us_since_min)
+    a = d.replace(tzinfo=dt.timezone(dt.timedelta(microseconds=off_us)))
+    utc_us = us_since_min - off_us
+    if not 0 <= utc_us <= MAXORD * 86400 * 10**6 - 1:
+        return
+    case = {"kind": "aware_subsecond", "us": us_since_min, "off_us": off_us}
+    ctx.ev(); ctx.counters["aware"] += 1; ctx.key(("aware-subsecond", off_us % 10**6 != 0, (off_us > 0) - (off_us < 0)))
+    exp_ns = (utc_us - (UNIX - 1) * 86400 * 10**6) * 1000
+    try:
+        i = Instant.from_aware_datetime(a)
+        if gen.inst_ns(i) != exp_ns:
+            V(ctx, "instant-from-aware-subsecond-offset", f"Instant.from_aware_datetime({a!r}) = {gen.inst_ns(i)} ns; exact value {exp_ns} (utc offset {off_us} us)", case, gen.inst_ns(i), exp_ns)
+        elif i.to_datetime_utc() != a:
+            V(ctx, "instant-aware-roundtrip", f"{a!r} -> {i!r} -> {i.to_datetime_utc()!r}", case)
+    except Exception as e:  # noqa: BLE001
+        ctx.exc(e); V(ctx, f"instant-from-aware-raised:{type(e).__name__}", f"Instant.from_aware_datetime({a!r}) raised {e!r}", case, repr(e))
 
 
 def check_timedelta(ctx, us, extra_ns):
@@ -282,6 +314,8 @@ def run(ctx, shard):
         us = rng.choice(edges) if j % 10 == 0 else rng.randrange(TOTAL_US)
         off = rng.choice(offs) if j % 2 == 0 else (rng.randint(-64800, 64800) // 60 * 60 if j % 4 == 1 else rng.randint(-64800, 64800))
         check_aware(ctx, us, off); ctx.count("aware")
+        if j % 4 == 0:
+            check_aware_subsecond(ctx, us, rng.choice([500000, -1, 1, 19800 * 10**6 + 500000, -999999, rng.randint(-64800 * 10**6, 64800 * 10**6)]))
     TD_MIN = (dt.timedelta.min.days * 86400) * 10**6; TD_MAX = TD_MIN * -1 - 1 + 86400 * 10**6
     tds = [TD_MIN, TD_MAX, 0, 1, -1, 86400 * 10**6, -86400 * 10**6 + 1, TD_MIN + 1, TD_MAX - 1]
     for j in range(n // 2):
@@ -302,6 +336,7 @@ def replay(ctx, case):
     elif k == "time": check_time(ctx, case["us"], case["extra_ns"])
     elif k == "naive": check_naive(ctx, case["us"], case.get("cal"), case.get("extra_ns", 0))
     elif k == "aware": check_aware(ctx, case["us"], case["off"])
+    elif k == "aware_subsecond": check_aware_subsecond(ctx, case["us"], case["off_us"])
     elif k == "timedelta": check_timedelta(ctx, case["us"], case["extra_ns"])
     elif k == "offset_td": check_offset_td(ctx, case["s"])
     else: check_out_of_range(ctx)
